@@ -40,6 +40,8 @@ Inductive fneedle :=
 
 Inductive family := Find | RFind | FFO | FFNO | FLO | FLNO.
 
+Inductive itk := KInc | KDec | KAdd | KSub.
+
 Inductive op :=
 | OAsgC (cs : list byte) | OAsgS (x : list byte) | OAsgFs
 | OCtorC (cs : list byte) | OCtorS (x : list byte) | OCtorMv | OCtorCp
@@ -62,11 +64,13 @@ Inductive op :=
 | OSw (k : needle) | OEw (k : needle) | OCt (k : needle)
 | OSubstr (p c : N) | OCopy (c p : N) | OAt (i : N) | OFront | OBack | OLen | OEmpty | OStr
 | OEq | ONe | OItF | OItR
-| OFind (fam : family) (k : fneedle) (pos : N).
+| OFind (fam : family) (k : fneedle) (pos : N)
+| OIt (rev : bool) (pos : N) (k : itk) (v : N).
 
 Inductive ret :=
 | RNone | RCmp (c : comparison) | RBool (b : bool) | RSize (n : N) | RChar (c : byte)
-| RStr (l : list byte) | RIter (n : N) | RCopy (n : N) (l : list byte) | RExc (e : err).
+| RStr (l : list byte) | RIter (n : N) | RCopy (n : N) (l : list byte) | RExc (e : err)
+| RItD (n : N) (c : option byte).
 
 Section FS.
 Variable L : N.
@@ -526,11 +530,41 @@ Definition ne_op (s o : fs) : res bool :=
 Definition it_begin (s : fs) : N := if len s =? 0 then NPOS else 0.
 Definition it_inc (s : fs) (i : N) : N := if i <? len s -! 1 then i +! 1 else NPOS.
 Definition it_dec (i : N) : N := if 0 <? i then i -! 1 else NPOS.
+(** FixedStringIterator::operator--: end() steps to the last character *)
+Definition it_prev (s : fs) (i : N) : N :=
+  if i =? NPOS then (if len s =? 0 then i else len s -! 1) else it_dec i.
+(** FixedStringReverseIterator::operator++ (rend() stays) and operator-- (rend() steps to the first character) *)
+Definition rit_inc (i : N) : N := if i =? NPOS then i else it_dec i.
+Definition rit_dec (s : fs) (i : N) : N :=
+  if i =? NPOS then (if len s =? 0 then i else 0) else it_inc s i.
 Definition it_add (s : fs) (i v : N) : N :=
   if i =? NPOS then i else if i +! v <? len s then i +! v else NPOS.
 Definition it_sub (i v : N) : N := if i =? NPOS then i else if v <=? i then i -! v else NPOS.
+(** FixedStringIterator::operator-= : from end() it steps back into the string *)
+Definition it_back (s : fs) (i v : N) : N :=
+  if i =? NPOS then (if (0 <? v) && (v <=? len s) then len s -! v else i)
+  else if v <=? i then i -! v else NPOS.
+(** FixedStringReverseIterator::operator-= : from rend() it steps back into the string *)
+Definition rit_back (s : fs) (i v : N) : N :=
+  if i =? NPOS then (if (0 <? v) && (v <=? len s) then v -! 1 else i)
+  else if i +! v <? len s then i +! v else NPOS.
 Definition it_deref (s : fs) (i : N) : res byte := if i =? NPOS then Err ERange else rd (buf s) i.
 Definition rit_begin (s : fs) : N := if len s =? 0 then NPOS else len s -! 1.
+
+(** one step of an iterator created at [pos], then operator* (range_error at the end position) *)
+Definition it_step (s : fs) (rev : bool) (pos : N) (k : itk) (v : N) : res (N * option byte) :=
+  let i0 := it_at s pos in
+  let i := match rev, k with
+           | false, KInc => it_inc s i0
+           | false, KDec => it_prev s i0
+           | false, KAdd => it_add s i0 v
+           | false, KSub => it_back s i0 v
+           | true, KInc => rit_inc i0
+           | true, KDec => rit_dec s i0
+           | true, KAdd => it_sub i0 v
+           | true, KSub => rit_back s i0 v
+           end in
+  if i =? NPOS then Ok (i, None) else do c <- rd (buf s) i; Ok (i, Some c).
 
 (** for (it = begin(); it != end(); ++it) out += *it; *)
 Fixpoint walk (fu : nat) (s : fs) (next : N -> N) (i : N) (acc : list byte) : res (list byte) :=
@@ -634,6 +668,7 @@ Definition step (s o : fs) (x : op) : res (fs * fs * ret) :=
   | OItF => obs s o RStr (walk fuel s (it_inc s) (it_begin s) [])
   | OItR => obs s o RStr (walk fuel s it_dec (rit_begin s) [])
   | OFind fam k pos => obs s o RSize (find_op s o fam k pos)
+  | OIt rev pos k v => obs s o (fun r => RItD (fst r) (snd r)) (it_step s rev pos k v)
   end.
 
 (** what the caller owes (C10): a (pointer, count) argument is readable for
